@@ -130,22 +130,30 @@ def run(ctx):
 def _e2e(ctx, rng, tmp):
     import py7zr
     # ---- c then x reproduces the tree; l lists what the library reports; a appends without disturbing
-    ntrees = 10 if ctx.thorough else 4
+    ntrees = 12 if ctx.thorough else 6
     for t in range(ntrees):
         work = os.path.join(tmp, "t%d" % t)
         os.makedirs(work)
         spec = trees.gen_tree(rng, links=(t % 2 == 0), maxentries=10)
         src = os.path.join(work, "src")
         trees.materialise(src, spec, rng)
-        arcname = "out.7z" if t % 2 == 0 else "out"      # archive name with or without .7z
+        # archive name with or without .7z; without it the command adds the suffix to the name as given, dots and all
+        arcname = ["out.7z", "out", "snap.v1.7z", "rel-1.0", "site.tar", "v2.1/pkg.x86"][t % 6]
+        arcfile = arcname if arcname.endswith(".7z") else arcname + ".7z"
+        if "/" in arcname:
+            os.makedirs(os.path.join(work, os.path.dirname(arcname)))
         rc, so, se = run_cli(["c", arcname, "src"], work)
         ctx.case(key=("c", t), nontrivial=True, sample={"argv": ["c", arcname, "src"], "entries": len(spec), "rc": rc})
         if rc != 0:
             ctx.fail("C19:create_status", "'c' failed on a plain tree", {"tree": _spec_repr(spec), "rc": rc, "stderr": se[-400:]})
             continue
-        arc = os.path.join(work, "out.7z")
+        arc = os.path.join(work, arcfile)
+        if not os.path.isfile(arc):
+            ctx.fail("C19:create_target", "'c %s' reports success and the archive %s does not exist" % (arcname, arcfile),
+                     {"argv": ["c", arcname, "src"], "files": sorted(os.listdir(os.path.dirname(arc)))[:10]})
+            continue
         if t % 2 == 0:
-            rc, so, se = run_cli(["x", "out.7z", "dest"], work)
+            rc, so, se = run_cli(["x", arcfile, "dest"], work)
             dest = os.path.join(work, "dest", "src")
         else:
             os.makedirs(os.path.join(work, "cwdout"))
@@ -158,7 +166,7 @@ def _e2e(ctx, rng, tmp):
         if d:
             ctx.fail("C19:c_x_tree", "'c' followed by 'x' does not reproduce the tree", {"tree": _spec_repr(spec), "diff": d[:6]})
         # l vs library
-        rc, so, se = run_cli(["l", "out.7z"], work)
+        rc, so, se = run_cli(["l", arcfile], work)
         with py7zr.SevenZipFile(arc, "r") as z:
             libnames = z.getnames()
         listed = [ln[53:] for ln in so.splitlines()[3:-1]] if rc == 0 else None
@@ -172,12 +180,12 @@ def _e2e(ctx, rng, tmp):
         # a: append a second tree, earlier members undisturbed
         spec2 = [("extra_%d" % t, "file", (arclib.gen_content(rng, 50), 0o644))]
         trees.materialise(os.path.join(work, "more"), spec2, rng)
-        rc, so, se = run_cli(["a", "out.7z", "more"], work)
+        rc, so, se = run_cli(["a", arcfile, "more"], work)
         ctx.case(key=("a", t), nontrivial=True)
         if rc != 0:
             ctx.fail("C19:append_status", "'a' failed", {"rc": rc, "stderr": se[-400:]})
             continue
-        rc, so, se = run_cli(["x", "out.7z", "dest2"], work)
+        rc, so, se = run_cli(["x", arcfile, "dest2"], work)
         if rc != 0:
             sig = "C19:append_onto_streamless_base" if _has_dir_between_files(spec) else "C19:append_then_extract"
             ctx.fail(sig, "'x' fails after 'c' then 'a'", {"tree": _spec_repr(spec), "rc": rc, "stderr": se[-400:]})
